@@ -206,6 +206,8 @@ impl Property for C12 {
         }
         let alphabet = *rng.pick(&[Alphabet::Ascii, Alphabet::Utf8, Alphabet::CrBlank, Alphabet::Odd]);
         let huge_case = rng.chance(1, 25);
+        // one line far beyond every buffer (64 KiB .. 1 MiB) in a file of otherwise ordinary lines
+        let giant_case = kind != "join" && kind != "outer" && rng.chance(if thorough { 6 } else { 2 }, 1000);
         let mut files = Vec::new();
         for _ in 0..n_files {
             let n_lines = if rng.chance(1, 8) { 0 } else { rng.range(1, 10) as usize };
@@ -230,6 +232,11 @@ impl Property for C12 {
                     line.push(b'\r'); // CRLF line end
                 }
                 lines.push(line);
+            }
+            if giant_case && rng.chance(1, 2) {
+                let pos = rng.below(lines.len() + 1);
+                let giant_len = *rng.pick(&[66_000usize, 131_080, 300_000, 1_050_000]);
+                lines.insert(pos, gen::gen_giant_line(rng, giant_len));
             }
             let final_nl = variant == "concat" || !rng.chance(1, 3);
             if kind != "join" && !lines.is_empty() && rng.chance(1, 12) {
@@ -547,6 +554,7 @@ impl Property for C12 {
         out.probe("odd_characters", files.iter().any(|f| f.iter().any(|b| *b == 0 || *b == 0x0b || *b == 0x0c) || f.windows(3).any(|w| w == "\u{2028}".as_bytes())) as u64);
         out.probe("more_than_4096_lines_in_a_file", files.iter().any(|f| f.iter().filter(|b| **b == b'\n').count() > 4096) as u64);
         out.probe("outer_join_with_empty_joined_table", (kind == "outer" && model(&[outer_joined.clone()]).is_empty()) as u64);
+        out.probe("line_over_64k", files.iter().any(|f| f.split(|b| *b == b'\n').any(|l| l.len() > 65536)) as u64);
         out.probe("line_over_8k", files.iter().any(|f| f.split(|b| *b == b'\n').any(|l| l.len() > 8192)) as u64);
         out.probe(&format!("kind_{}", kind), 1);
         out.probe(&format!("variant_{}", variant), 1);
